@@ -179,6 +179,37 @@ pub fn c19_case(src: &mut Src, obs: &mut Obs) -> CaseResult {
     let results: Arc<Mutex<Vec<Option<Result<u32, String>>>>> = Arc::new(Mutex::new(vec![None; n]));
     let mut sched = Sched::new();
     sched.spawn_ticker("exec", conn.executor().clone());
+    // bystanders: message streams on the same connection whose rules also match replies (a monitor
+    // of all method returns / errors / everything); they take nothing away from the callers
+    let bystanders = src.weighted(&[6, 2, 2, 2, 1]);
+    let by_rules: Vec<&str> = match bystanders {
+        1 => vec!["type='method_return'"],
+        2 => vec!["type='error'"],
+        3 => vec!["type='method_return'", "type='error'"],
+        4 => vec!["type='signal'", "type='method_return'"],
+        _ => vec![],
+    };
+    let by_seen: Arc<Mutex<Vec<u32>>> = Default::default();
+    let by_drop_after = if src.bool() { Some(src.below(4)) } else { None };
+    for (k, rule) in by_rules.iter().enumerate() {
+        let (c, rule, seen) = (conn.clone(), rule.to_string(), by_seen.clone());
+        let a = sched.spawn(&format!("bystander{k}"), async move {
+            use futures_util::StreamExt;
+            let r = zbus::MatchRule::try_from(rule.as_str()).expect("rule");
+            let Ok(mut st) = zbus::MessageStream::for_match_rule(r, &c, None).await else { return };
+            drop(c);
+            let mut n = 0usize;
+            while let Some(Ok(m)) = st.next().await {
+                seen.lock().unwrap().push(m.primary_header().serial_num().get());
+                n += 1;
+                if k == 0 && by_drop_after == Some(n) {
+                    // the monitor goes away in the middle
+                    return;
+                }
+            }
+        });
+        sched.actors[a].daemon = true;
+    }
     for id in 0..n {
         let c = conn.clone();
         let r = results.clone();
@@ -284,7 +315,7 @@ pub fn c19_case(src: &mut Src, obs: &mut Obs) -> CaseResult {
         s.all_done()
     });
     let got = results.lock().unwrap().clone();
-    let describe = || format!("{n} callers, plans {plans:?}, delays {delays:?}, noise {noise}, ends with {}, results {got:?}, {} steps", if end_with_error { "I/O error" } else { "EOF" }, sched.steps);
+    let describe = || format!("{n} callers, plans {plans:?}, delays {delays:?}, noise {noise}, bystander streams {by_rules:?} (first one dropped after {by_drop_after:?} messages), ends with {}, results {got:?}, {} steps", if end_with_error { "I/O error" } else { "EOF" }, sched.steps);
     if !wrong_serial.is_empty() {
         return Err(Failure::new(format!("{wrong_serial:?}; {}", describe())));
     }
@@ -310,6 +341,9 @@ pub fn c19_case(src: &mut Src, obs: &mut Obs) -> CaseResult {
         return Err(Failure::new(format!("two calls went out with the same serial {serials:?}; {}", describe())));
     }
     obs.label(if non_identity { "replies-permuted" } else { "replies-in-order" });
+    if !by_rules.is_empty() {
+        obs.label("with-bystander-streams");
+    }
     if n >= 3 && non_identity {
         obs.nontrivial(fnv(format!("{plans:?}{delays:?}{}{:?}", sched.steps, &sched.trace[..sched.trace.len().min(64)]).as_bytes()));
         obs.sample("calls", describe);
